@@ -1,1 +1,105 @@
-// harnesses for vub_vring
+// Child module of vhost_user_backend::vring: constructors by struct literal (VringState::new cannot be
+// compiled by Kani 0.68: its error path instantiates the drop glue of GuestMemoryAtomic -> ArcSwap -> TLS
+// destructor -> catch_unwind) and ring identity helpers; C09/C14 unit harnesses on the descriptors a ring holds.
+use super::*;
+use crate::verif as vgm;
+use std::mem::ManuallyDrop;
+use std::os::unix::io::AsRawFd;
+
+pub(crate) type M = GuestMemoryAtomic<GuestMemoryMmap<()>>;
+
+/// duplicate the handle bitwise (never dropped; every owner is leaked at the end of the harness)
+pub(crate) fn dup_mem(m: &ManuallyDrop<M>) -> M {
+    // SAFETY: all copies are forgotten, the reference count is never decremented
+    unsafe { std::ptr::read(&**m) }
+}
+pub(crate) fn mk_state(mem: M, max: u16) -> VringState<M> {
+    VringState { queue: Queue::new(max).unwrap(), kick: None, call: None, err: None, enabled: false, mem }
+}
+pub(crate) fn mk_vring_mutex(mem: M, max: u16) -> VringMutex<M> {
+    VringMutex { state: Arc::new(Mutex::new(mk_state(mem, max))) }
+}
+pub(crate) fn mk_vring_rwlock(mem: M, max: u16) -> VringRwLock<M> {
+    VringRwLock { state: Arc::new(RwLock::new(mk_state(mem, max))) }
+}
+pub(crate) fn ring_id_mutex(v: &VringMutex<M>) -> usize {
+    Arc::as_ptr(&v.state) as *const u8 as usize
+}
+pub(crate) fn ring_id_rwlock(v: &VringRwLock<M>) -> usize {
+    Arc::as_ptr(&v.state) as *const u8 as usize
+}
+pub(crate) fn kick_fd<V: VringT<M>>(v: &V) -> Option<RawFdT> {
+    v.get_ref().get_kick().as_ref().map(|k| k.as_raw_fd())
+}
+pub(crate) type RawFdT = std::os::unix::io::RawFd;
+pub(crate) fn is_active<V: VringT<M>>(v: &V) -> bool {
+    let s = v.get_ref();
+    s.get_queue().ready() && s.is_enabled()
+}
+
+macro_rules! v_proof {
+    ($(#[$m:meta])* fn $name:ident() $body:block) => {
+        $(#[$m])*
+        #[kani::proof]
+        #[kani::unwind(10)]
+        #[kani::stub(vmm_sys_util::event::EventConsumer::consume, vgm::ghost_consume)]
+        #[kani::stub(vmm_sys_util::event::EventNotifier::notify, vgm::ghost_notify)]
+        #[kani::stub(libc::close, vgm::ghost_close)]
+        #[kani::stub(<std::os::fd::OwnedFd as std::ops::Drop>::drop, vgm::ghost_ownedfd_drop)]
+        #[kani::stub(std::alloc::handle_alloc_error, vgm::ghost_alloc_error)]
+        fn $name() $body
+    };
+}
+fn file(fd: RawFdT) -> File {
+    // SAFETY: ghost descriptor number, never used for I/O
+    unsafe { File::from_raw_fd(fd) }
+}
+
+// @harness props=C09,C14 tier=quick bound="VringState set_kick/set_call/set_err: replace / clear in any order (3 symbolic steps over 3 slots), signal_used_queue after each" stubs="EventNotifier::notify, close/OwnedFd::drop (ghost descriptor table)"
+v_proof! { fn c09_u_vring_fds() {
+    let mem = ManuallyDrop::new(GuestMemoryAtomic::new(GuestMemoryMmap::<()>::new()));
+    let mut st = ManuallyDrop::new(mk_state(dup_mem(&mem), 256));
+    // current descriptor per slot (kick, call, err); fresh numbers 200, 201, ...
+    let mut cur: [Option<RawFdT>; 3] = [None, None, None];
+    let mut next = vgm::FD0;
+    let mut step = 0;
+    while step < 3 {
+        let which: u8 = kani::any();
+        kani::assume(which < 3);
+        let install: bool = kani::any();
+        let newfd = if install { let f = next; next += 1; Some(f) } else { None };
+        let arg = newfd.map(file);
+        match which {
+            0 => st.set_kick(arg),
+            1 => st.set_call(arg),
+            _ => st.set_err(arg),
+        }
+        // C09: the descriptor that was replaced / cleared is closed exactly once, the others stay open
+        if let Some(old) = cur[which as usize] {
+            assert!(vgm::vg().closed[(old - vgm::FD0) as usize], "C09: replaced descriptor must be closed");
+        }
+        cur[which as usize] = newfd;
+        let mut k = 0;
+        while k < 3 {
+            if let Some(fd) = cur[k] {
+                assert!(!vgm::vg().closed[(fd - vgm::FD0) as usize], "C09: a descriptor still installed was closed");
+            }
+            k += 1;
+        }
+        assert!(!vgm::vg().double_close, "C09: double close");
+        // C14: used-buffer signalling goes to the call descriptor installed most recently, or nowhere
+        let before = vgm::vg().notified;
+        let r = st.signal_used_queue();
+        assert!(r.is_ok());
+        std::mem::forget(r);
+        let mut j = 0;
+        while j < 3 {
+            let fd = vgm::FD0 + j as RawFdT;
+            let exp = if cur[1] == Some(fd) { 1 } else { 0 };
+            assert!(vgm::vg().notified[j] == before[j] + exp, "C14: signal_used_queue notifies exactly the current call descriptor");
+            j += 1;
+        }
+        step += 1;
+    }
+    kani::cover!(cur[1].is_some() && vgm::vg().closed[0]);
+} }
